@@ -229,7 +229,34 @@ def r18e(ctx):
               key_detail="radial distance")
 
 
+def r18f(ctx):
+    """single-layer direct path in the layered tracer: both launch directions are enumerated, and exactly one of them is skipped for every sign of z1 - z0
+    (the two skip conditions must be complementary in z1 - z0 and opposite in direction, otherwise a level path z1 == z0 loses its only direct solution
+    or gets two)."""
+    repo = ctx.repo
+    ctx.rule("R18f", "layered direct path: the duplicate-direction guard skips `z1-z0 >= 0 with one direction` or `z1-z0 < 0 with the other` -- complementary comparators, "
+             "opposite directions", expected=1, kind="N")
+    so = repo.member(LT, "solutions")
+    g = [n for n in ast.walk(so) if isinstance(n, ast.If) and "len(path) == 1" in u(n.test) and "start_direction" in u(n.test) and any(isinstance(x, ast.Continue) for x in n.body)]
+    if len(g) != 1:
+        ctx.unknown("R18f", f"{LT}.solutions", "direction guard of the single-layer direct path found", f"{len(g)} candidates")
+        return
+    cases = []
+    for b in ast.walk(g[0].test):
+        if isinstance(b, ast.BoolOp) and isinstance(b.op, ast.And) and len(b.values) == 2 and all(isinstance(v, ast.Compare) for v in b.values):
+            dz = [v for v in b.values if "self.z1 - self.z0" in u(v.left) or "self.z1 - self.z0" in u(v.comparators[0])]
+            dr = [v for v in b.values if "start_direction" in u(v)]
+            if len(dz) == 1 and len(dr) == 1:
+                cases.append((type(dz[0].ops[0]).__name__, u(dz[0].comparators[0]), u(dr[0].comparators[0]), type(dr[0].ops[0]).__name__))
+    comp = {("GtE", "Lt"), ("Lt", "GtE"), ("Gt", "LtE"), ("LtE", "Gt")}
+    ok = len(cases) == 2 and (cases[0][0], cases[1][0]) in comp and cases[0][1] == cases[1][1] == "0" and {cases[0][2], cases[1][2]} == {"1", "-1"} \
+        and cases[0][3] == cases[1][3] == "Eq"
+    ctx.check(ok, "R18f", f"{LT}.solutions", "for every z1 - z0 exactly one launch direction of the single-layer direct path is skipped (complementary tests, opposite directions)",
+              str(cases), key_detail="direct path direction guard", loc=ctx.loc(repo.cls(LT).module, g[0]))
+
+
 def run(ctx):
+    ctx.guard(r18f)
     ctx.guard(r18a)
     ctx.guard(r18b)
     ctx.guard(r18c)
@@ -239,6 +266,8 @@ def run(ctx):
 
 SELFTEST = {
     "faults": [
+        {"name": "level direct path skipped in both directions", "file": "pyrex/custom/layered_ice/ray_tracing.py", "old": "                         (self.z1-self.z0<0 and start_direction==-1))):",
+         "new": "                         (self.z1-self.z0<=0 and start_direction==-1))):", "rule": "R18f"},
         {"name": "different dzs in tracer and path", "file": "pyrex/ray_tracing.py", "old": "            dzs.extend([size]*(self._reflections-1))",
          "new": "            dzs.extend([size]*(self._reflections))", "rule": "R18b"},
         {"name": "tof without /c", "file": "pyrex/ray_tracing.py", "old": "        return self.n0 * self.path_length / scipy.constants.c", "new": "        return self.n0 * self.path_length", "rule": "R18a"},
